@@ -1,10 +1,11 @@
 //! C02 — parsed programs print to text that re-parses to the same program, byte-stable.
 //!
 //! The real chain text1 -> P1 -> text2 -> P2 -> text3 is run on every accepted generated text
-//! (require: printing succeeds, P1 == P2, text2 == text3).  For single instructions of the modelled
-//! fragment the real token streams of text1 and text2 and the real AST are shipped to Coq, where
-//! the parser model must produce the AST from text1, the printer model must produce text2's tokens
-//! from the AST, and the verified checker decides the round trip on the implementation's output.
+//! (require: printing succeeds, P1 == P2, text2 == text3).  For single instructions and block
+//! definitions the model AST can represent, the real token streams of text1 and text2 and the real AST
+//! are shipped to Coq, where the parser model must produce the AST from text1, the printer model must
+//! produce text2's tokens from the AST, and the verified checker decides the round trip on the
+//! implementation's output; for whole programs the instruction list of P1 and the tokens of text2.
 #[path = "../quilgen.rs"]
 mod quilgen;
 #[path = "../ppmodel.rs"]
@@ -95,6 +96,33 @@ fn mutate_print(mutant: u32, text2: String) -> String {
     }
 }
 
+/// emulated parser bugs with a compensating printer (the real chain stays self-consistent; only the
+/// comparison with the parser model on the input tokens can notice): perturb the observed AST
+fn mutate_ast(mutant: u32, i: Instruction) -> Instruction {
+    match (mutant, i) {
+        // 5: the parser ignores NONBLOCKING (and the printer, given blocking = true, never prints it)
+        (5, Instruction::Pulse(mut p)) => {
+            p.blocking = true;
+            Instruction::Pulse(p)
+        }
+        (5, Instruction::Capture(mut c)) => {
+            c.blocking = true;
+            Instruction::Capture(c)
+        }
+        // 6: parse_block drops the last line of a DEFCAL body of two or more lines (off by one)
+        (6, Instruction::CalibrationDefinition(mut d)) if d.instructions.len() >= 2 => {
+            d.instructions.pop();
+            Instruction::CalibrationDefinition(d)
+        }
+        // 7: DEFFRAME attributes are collected in reverse order
+        (7, Instruction::FrameDefinition(mut d)) if d.attributes.len() >= 2 => {
+            d.attributes.reverse();
+            Instruction::FrameDefinition(d)
+        }
+        (_, i) => i,
+    }
+}
+
 impl Ctx {
     /// the real chain on a program text; ships an opaque case; returns false if text1 is rejected
     fn program_case(&mut self, text1: &str, class: &str) -> bool {
@@ -157,6 +185,7 @@ impl Ctx {
                 return false;
             }
         };
+        let i1 = mutate_ast(self.mutant, i1);
         let known = known_class(std::slice::from_ref(&i1));
         let mut it = Interner::default();
         // waveform parameter keys first: the model's key order is the interning order
